@@ -16,6 +16,10 @@
  *       read_eof=SUFFIX:J        the J-th read() on a matching file (and every
  *                                later one) returns 0: the file was truncated
  *                                between listing and reading
+ *       stat_err=SUFFIX:ERRNO    stat/lstat/statx/fstatat BY NAME of a path ending in
+ *                                SUFFIX fails (fstat of an open descriptor does not):
+ *                                the file vanished or its directory lost search
+ *                                permission between listing and stat
  *       read_frag=SEED           every read() on files beneath ROOT returns
  *                                between 1 and 97 bytes (seeded per fd)
  *   FAULTSHIM_OUT    file that receives the "what actually fired" counters
@@ -48,8 +52,8 @@ static char cwd[1024];
 static long stdout_budget = -1;      /* -1: unlimited */
 static long stdout_written;
 static int epipe_seen;
-static struct rule open_rules[MAXRULES], opendir_rules[MAXRULES], read_rules[MAXRULES], eof_rules[MAXRULES];
-static int n_open, n_opendir, n_read, n_eof;
+static struct rule open_rules[MAXRULES], opendir_rules[MAXRULES], read_rules[MAXRULES], eof_rules[MAXRULES], stat_rules[MAXRULES];
+static int n_open, n_opendir, n_read, n_eof, n_stat;
 static uint64_t frag_seed;
 static int frag_on;
 static char *fdpath[MAXFD];
@@ -57,7 +61,7 @@ static long fdreads[MAXFD];
 static uint64_t fdrng[MAXFD];
 
 /* counters of what fired */
-static long c_epipe, c_short_write, c_open_err, c_opendir_err, c_read_err, c_read_eintr, c_read_frag, c_opens_after_epipe, c_opens, c_read_eof;
+static long c_epipe, c_short_write, c_open_err, c_opendir_err, c_read_err, c_read_eintr, c_read_frag, c_opens_after_epipe, c_opens, c_read_eof, c_stat_err;
 
 static ssize_t (*real_write)(int, const void *, size_t);
 static ssize_t (*real_read)(int, void *, size_t);
@@ -95,8 +99,8 @@ static void dump(void) {
     if (!out || !real_open || strcmp(program_invocation_short_name, "rg") != 0) return;
     char buf[1024];
     int n = snprintf(buf, sizeof buf,
-        "epipe=%ld\nshort_write=%ld\nopen_err=%ld\nopendir_err=%ld\nread_err=%ld\nread_eintr=%ld\nread_frag=%ld\nopens=%ld\nopens_after_epipe=%ld\nstdout_written=%ld\nread_eof=%ld\n",
-        c_epipe, c_short_write, c_open_err, c_opendir_err, c_read_err, c_read_eintr, c_read_frag, c_opens, c_opens_after_epipe, stdout_written, c_read_eof);
+        "epipe=%ld\nshort_write=%ld\nopen_err=%ld\nopendir_err=%ld\nread_err=%ld\nread_eintr=%ld\nread_frag=%ld\nopens=%ld\nopens_after_epipe=%ld\nstdout_written=%ld\nread_eof=%ld\nstat_err=%ld\n",
+        c_epipe, c_short_write, c_open_err, c_opendir_err, c_read_err, c_read_eintr, c_read_frag, c_opens, c_opens_after_epipe, stdout_written, c_read_eof, c_stat_err);
     int fd = real_open(out, O_WRONLY | O_CREAT | O_TRUNC, 0644);
     if (fd >= 0) { real_write(fd, buf, n); real_close(fd); }
 }
@@ -130,6 +134,7 @@ static void init(void) {
             const char *k = tok, *v = eq + 1;
             if (!strcmp(k, "stdout_budget")) stdout_budget = atol(v);
             else if (!strcmp(k, "open_err") && n_open < MAXRULES) parse_rule(&open_rules[n_open++], v, 0);
+            else if (!strcmp(k, "stat_err") && n_stat < MAXRULES) parse_rule(&stat_rules[n_stat++], v, 0);
             else if (!strcmp(k, "opendir_err") && n_opendir < MAXRULES) parse_rule(&opendir_rules[n_opendir++], v, 0);
             else if (!strcmp(k, "read_err") && n_read < MAXRULES) parse_rule(&read_rules[n_read++], v, 1);
             else if (!strcmp(k, "read_eof") && n_eof < MAXRULES) { char tmp[600]; snprintf(tmp, sizeof tmp, "%s:0", v); parse_rule(&eof_rules[n_eof++], tmp, 1); }
@@ -203,6 +208,64 @@ int open(const char *path, int flags, ...) { OPEN_BODY(real_open, path) }
 int open64(const char *path, int flags, ...) { OPEN_BODY(real_open64, path) }
 int openat(int dirfd, const char *path, int flags, ...) { OPEN_BODY(real_openat, dirfd, path) }
 int openat64(int dirfd, const char *path, int flags, ...) { OPEN_BODY(real_openat64, dirfd, path) }
+
+/* stat by name */
+static int stat_fault(const char *path0) {
+    if (!path0 || !path0[0]) return 0;
+    init();
+    if (!n_stat) return 0;
+    char abuf[2048];
+    const char *path = absolute(path0, abuf, sizeof abuf);
+    int i = match_rule(stat_rules, n_stat, path);
+    if (i < 0) return 0;
+    pthread_mutex_lock(&mu); c_stat_err++; pthread_mutex_unlock(&mu);
+    errno = stat_rules[i].err;
+    return 1;
+}
+
+struct statx;
+int statx(int dirfd, const char *path, int flags, unsigned int mask, struct statx *buf) {
+    static int (*real)(int, const char *, int, unsigned int, struct statx *);
+    if (!real) real = dlsym(RTLD_NEXT, "statx");
+    if (stat_fault(path)) return -1;
+    return real(dirfd, path, flags, mask, buf);
+}
+int stat(const char *path, struct stat *buf) {
+    static int (*real)(const char *, struct stat *);
+    if (!real) real = dlsym(RTLD_NEXT, "stat");
+    if (stat_fault(path)) return -1;
+    return real(path, buf);
+}
+int lstat(const char *path, struct stat *buf) {
+    static int (*real)(const char *, struct stat *);
+    if (!real) real = dlsym(RTLD_NEXT, "lstat");
+    if (stat_fault(path)) return -1;
+    return real(path, buf);
+}
+int stat64(const char *path, struct stat64 *buf) {
+    static int (*real)(const char *, struct stat64 *);
+    if (!real) real = dlsym(RTLD_NEXT, "stat64");
+    if (stat_fault(path)) return -1;
+    return real(path, buf);
+}
+int lstat64(const char *path, struct stat64 *buf) {
+    static int (*real)(const char *, struct stat64 *);
+    if (!real) real = dlsym(RTLD_NEXT, "lstat64");
+    if (stat_fault(path)) return -1;
+    return real(path, buf);
+}
+int fstatat(int dirfd, const char *path, struct stat *buf, int flags) {
+    static int (*real)(int, const char *, struct stat *, int);
+    if (!real) real = dlsym(RTLD_NEXT, "fstatat");
+    if (stat_fault(path)) return -1;
+    return real(dirfd, path, buf, flags);
+}
+int fstatat64(int dirfd, const char *path, struct stat64 *buf, int flags) {
+    static int (*real)(int, const char *, struct stat64 *, int);
+    if (!real) real = dlsym(RTLD_NEXT, "fstatat64");
+    if (stat_fault(path)) return -1;
+    return real(dirfd, path, buf, flags);
+}
 
 DIR *opendir(const char *path0) {
     init();
